@@ -18,7 +18,7 @@ ROOT = os.path.dirname(os.path.dirname(os.path.abspath(__file__)))
 REPO = os.environ.get("MATID_REPO", "/repo")
 SPEC = os.path.join(ROOT, "spec")
 CACHE = os.path.join(ROOT, ".cache")
-EVID = os.path.join(ROOT, "evidence")
+EVID = os.environ.get("VERIF_EVIDENCE_DIR") or os.path.join(ROOT, "evidence")
 REPLAY = os.path.join(EVID, "replay")
 NCPU = min(16, os.cpu_count() or 1)
 
